@@ -51,9 +51,9 @@ const (
 
 func nCases(tier string) int {
 	if tier == "thorough" {
-		return len(fixedCases()) + cycle*6000
+		return len(fixedCases()) + cycle*8000
 	}
-	return len(fixedCases()) + cycle*350
+	return len(fixedCases()) + cycle*500
 }
 
 func gen(r *rand.Rand, i int, tier string) Case {
@@ -142,7 +142,7 @@ func sigOf(c Case, fail string) string {
 	if feat == "" {
 		feat = "-"
 	}
-	return fmt.Sprintf("%s kind=%s feat=%s fail=%s", c.Mode, c.Kind, feat, fail)
+	return fmt.Sprintf("%s feat=%s kind=%s fail=%s", c.Mode, feat, c.Kind, fail)
 }
 
 // ppFailure reports a pretty printer failure. Running out of the printer's
@@ -347,7 +347,7 @@ func execCode(x *fw.Ctx, c Case) {
 	scope := slip.NewScope()
 	sigH := func(fail, head string) string {
 		if head == "" {
-			head = "-"
+			return sigOf(c, fail)
 		}
 		return sigOf(c, fail) + " head=" + head
 	}
@@ -508,12 +508,22 @@ func flatDoc(kind string, obj slip.Object) slip.Object {
 	return obj
 }
 
+// layoutHeads are the head symbols with a pretty printer layout of their own
+// (pp/append.go buildCall) plus the other special forms the generator uses.
+var layoutHeads = map[string]bool{
+	"quote": true, "let": true, "let*": true, "lambda": true, "defun": true, "defmacro": true, "cond": true, "progn": true,
+	"block": true, "dotimes": true, "dolist": true, "do": true, "do*": true, "dovector": true, "with-input-from-string": true,
+	"with-output-to-string": true, "with-standard-io-syntax": true, "backquote": true, "case": true, "typecase": true,
+	"if": true, "when": true, "unless": true, "tagbody": true, "multiple-value-bind": true, "prog1": true, "setq": true,
+	"return-from": true, "funcall": true, "apply": true, "mapcar": true, "and": true, "or": true, "incf": true, "push": true,
+}
+
 func countHeads(x *fw.Ctx, obj slip.Object) {
-	l, ok := obj.(slip.List)
+	l, ok := unfunk(obj).(slip.List)
 	if !ok || len(l) == 0 {
 		return
 	}
-	if s, ok := l[0].(slip.Symbol); ok {
+	if s, ok := l[0].(slip.Symbol); ok && layoutHeads[strings.ToLower(string(s))] {
 		x.Cover("head:" + strings.ToLower(string(s)))
 	}
 	for _, e := range l {
@@ -566,7 +576,7 @@ func init() {
 		Exec:     exec,
 		Init:     lockSwank,
 		Batch:    250,
-		HangSecs: 300,
+		HangSecs: 150,
 		Assumptions: []string{
 			"the reader is trusted to read the printed text (checked by C02/C03); structure is compared through the harness's own renderer",
 			"behavioural equality is judged on a finite set of probe calls per definition",
